@@ -375,6 +375,8 @@ func c09Scenarios(tier string) []Scenario {
 		}
 	}
 	out = append(out, c09TagScenario(2, true, P), c09TagScenario(3, false, 2))
+	// more completions than the Tag's channels hold (16 + the consumer's 8): the reader has to wait for the late consumer
+	out = append(out, c09TagScenario(30, true, 1), c09TagScenario(40, false, 1))
 	n := 3000
 	if tier == "thorough" {
 		n = 70000
